@@ -217,11 +217,25 @@ theorem energy_moments_pure_partial :
     varSubtrahendCodeDM H rho = energyDM H rho * energyDM H rho := by
   decide +kernel
 
-/-- Definition of occupation and correlation in terms of the measurement probabilities, and
-their agreement with the number operators built by `_get_number_operator` — shown on a
-two-qutrit instance (PARTIAL: the general statement `Tr[ρ n_i] = Σ_σ p_σ [σᵢ = one]` is
-not proved; the general ingredients are `operator_from_repr` and `pure_eq_mixed`). -/
-theorem occupation_index_partial :
+/-- **Clause "occupation ⟨n_i⟩ … for pure and mixed states and any qudit dimension".**  The
+expectation value of the number operator that `Occupation.apply` builds through
+`from_operator_repr` is the definition `Σ_σ p_σ [σᵢ = one]` (`p` = diagonal of the state, qudit
+`i` = `i`-th digit in register order), for every matrix `ρ`, every dimension `d` and every
+number of qudits `n`. -/
+theorem occupation_is_definition (d n one i : Nat) (hi : i < n) (rho : Mat) (hr : rho.r = d ^ n) :
+    (expectDM (numberOp d n one [i]) rho).re = occupationSpec d n one (probsDM rho) i :=
+  occupation_re d n one i hi rho hr
+
+/-- … and the number operator itself is the diagonal projector on `σᵢ = one`. -/
+theorem number_operator_entries (d n one i : Nat) (hi : i < n) (σ τ : List Nat)
+    (hs : σ.length = n) (ht : τ.length = n) (hds : ∀ a ∈ σ, a < d) (hdt : ∀ a ∈ τ, a < d) :
+    (numberOp d n one [i]).f (index d σ) (index d τ) = if σ = τ ∧ σ.getD i d = one then 1 else 0 :=
+  numberOp_entry d n one i hi σ τ hs ht hds hdt
+
+/-- Non-vacuity, and the two-qudit correlation `⟨n_0 n_1⟩ = Σ_σ p_σ [σ₀ = one ∧ σ₁ = one]` on a
+two-qutrit instance (PARTIAL: for the correlation the general statement is not proved; its
+ingredients are `operator_from_repr` and the proof pattern of `occupation_is_definition`). -/
+theorem correlation_index_partial :
     let d := 3; let n := 2; let one := 2
     let rho : Mat := Mat.ofLists 9 9 ((List.range 9).map fun i => (List.range 9).map fun j =>
       if i = j then ⟨(i + 1 : Nat) / 45, 0⟩ else ⟨1 / 100, (i : Int) - j⟩)
